@@ -816,6 +816,10 @@ impl Prop for ExplainProp {
             Tier::Thorough => vec!["expl", "checks_expl"],
         }
     }
+    fn tolerates_aborted(&self, _tier: Tier, cfg: &str) -> bool {
+        // the build with BOTH checks and explanations has a stricter-than-the-proof-rules assertion (DESIGN §7, D9)
+        cfg == "checks_expl"
+    }
     fn segments(&self, tier: Tier, _cfg: &str) -> Vec<Seg> {
         let mut v: Vec<Seg> = self.segs(tier).iter().map(|s| s.seg.clone()).collect();
         for (a, d) in rw_spaces(tier) {
